@@ -53,6 +53,7 @@ type nsNodeSpec struct {
 	versions []cert.Version
 	udp      netip.AddrPort
 	notAfter time.Time
+	unsafe   []netip.Prefix
 	claims   int // nsSelfClaim: index of the node whose address is claimed
 	poses    int // nsAddrThief: index of the node it is mistaken for
 }
@@ -86,6 +87,8 @@ type nsWorld struct {
 	known    map[*HostInfo]bool
 	blockFP  []string
 	partitioned [][2]int
+	// dynBlock[x][y]: node x reloaded its configuration with identity y's fingerprints blocklisted
+	dynBlock map[int]map[int]bool
 	// udpExtra is an additional predicate over every datagram a node puts on the wire ("" = fine)
 	udpExtra func(src *nsNode, p *nsPacket) string
 }
@@ -185,7 +188,19 @@ func nsGenWorld(rt *rapid.T, s *nsSim, o nsWorldOpts) *nsWorld {
 			before, after = now.Add(-10*time.Hour), now.Add(time.Duration(rapid.SampledFrom([]int{2, 8, 25}).Draw(rt, sp.name+".expiresIn"))*time.Second)
 		}
 		sp.notAfter = time.Unix(after.Unix(), 0)
-		idents[i] = nsNewIdent(ca, sp.name, sp.versions, sp.nets, nil, []string{"g" + sp.name}, before, after)
+		var unsafeNets []netip.Prefix
+		if sp.kind == nsAddrThief && rapid.Bool().Draw(rt, sp.name+".unsafeCoversVictim") {
+			// the wrong responder is also certified for an unsafe network that covers the address it is
+			// mistaken for (routing for an address is not being that address)
+			v := w.specs[sp.poses].nets[0]
+			if rapid.Bool().Draw(rt, sp.name+".unsafeHostRoute") {
+				unsafeNets = []netip.Prefix{netip.PrefixFrom(v.Addr(), v.Addr().BitLen())}
+			} else {
+				unsafeNets = []netip.Prefix{v.Masked()}
+			}
+			sp.unsafe = unsafeNets
+		}
+		idents[i] = nsNewIdent(ca, sp.name, sp.versions, sp.nets, unsafeNets, []string{"g" + sp.name}, before, after)
 		for _, c := range idents[i].certs {
 			fp, _ := c.Fingerprint()
 			w.byFP[fp] = i
@@ -523,6 +538,9 @@ func (w *nsWorld) checkHostmaps(rt *rapid.T) (tunnels, fresh int) {
 // identity pi right now? (which CA it trusts, whether it carries the blocklist, validity window)
 func (w *nsWorld) accepts(xi, pi int) bool {
 	x, p := w.specs[xi], w.specs[pi]
+	if w.dynBlock[xi][pi] {
+		return false
+	}
 	if x.kind == nsUntrusted {
 		return p.kind == nsUntrusted // trusts only CA#1
 	}
